@@ -53,7 +53,12 @@ SCANNED = {('Lexicon', 'id'), ('Lexicon', 'version'), ('Lexicon', 'label'),
 
 BODY_CLASSES = ('attr-removed', 'elem-renamed', 'v11-elem-in-v10', 'doctype-downgrade',
                 'child-duplicated', 'close-tag-removed', 'end-tag-mismatch',
-                'attr-duplicated', 'truncated')
+                'attr-duplicated', 'truncated', 'misnested')
+# 'misnested': a known element in a place where no version of the DTD has it (a lexicon inside a
+# lexicon, the whole resource inside a second root element, Extends inside an entry).  The
+# property does not list this fault: a reader may reject the file or accept it, but whatever
+# load() accepts scan_lexicons() has to agree with (EITHER_WAY)
+EITHER_WAY = ('misnested',)
 NOT_WELLFORMED = ('close-tag-removed', 'end-tag-mismatch', 'attr-duplicated', 'truncated')
 
 # header faults the property says must be rejected ...
@@ -251,6 +256,21 @@ def sites(cls: str, root: El, version: str) -> list[tuple[str, Any]]:
             if el.attrs:
                 scanned = any((el.tag, k) in SCANNED for k, _v in el.attrs)
                 out.append(('scanned-element' if scanned else 'other-element', el))
+    elif cls == 'misnested':
+        lexs = [(i, c) for i, c in enumerate(root.children)
+                if c.tag in ('Lexicon', 'LexiconExtension')]
+        for n, (i, lx) in enumerate(lexs):
+            if n > 0:
+                out.append((f'{lx.tag}-in-{lexs[n - 1][1].tag}', ('into-previous', root, i)))
+            kids = [c for c in lx.children if c.tag in ('LexicalEntry', 'ExternalLexicalEntry',
+                                                        'Synset', 'ExternalSynset')]
+            if kids:
+                out.append((f'{lx.tag}-in-{kids[0].tag}', ('into-child', root, i, kids[0])))
+            ext = [c for c in lx.children if c.tag == 'Extends']
+            if ext and kids:
+                out.append(('Extends-in-' + kids[0].tag, ('move', lx, ext[0], kids[0])))
+        if lexs:
+            out.append(('LexicalResource-in-LexicalResource', ('wrap', root)))
     elif cls == 'v11-elem-in-v10':
         if version != '1.0':
             return []
@@ -391,7 +411,33 @@ def build(resource: dict, style, mutation: dict, literal_ws: bool = False) -> Bu
     cands = sites(cls, root, version)
     k, handle = _pick(cands, kind, pos)
     b.kind = k
-    if cls == 'attr-removed':
+    if cls == 'misnested':
+        how = handle[0]
+        if how == 'into-previous':
+            _h, r, i = handle
+            lx = r.children.pop(i)
+            r.children[i - 1].children.append(lx)
+            b.what = f'<{lx.tag}> moved to the end of the preceding <{r.children[i - 1].tag}>'
+        elif how == 'into-child':
+            _h, r, i, kid = handle
+            # the *following* lexicons (if any) stay where they are; this one goes into the
+            # first entry/synset of its predecessor or, for the first lexicon, nowhere else:
+            # put a copy of the lexicon inside its own first child instead of moving it
+            lx = r.children[i]
+            inner = _clone(lx)
+            kid.children.append(inner)
+            b.what = f'a copy of <{lx.tag}> nested inside its first <{kid.tag}>'
+        elif how == 'move':
+            _h, lx, ext, kid = handle
+            lx.children.remove(ext)
+            kid.children.insert(0, ext)
+            b.what = f'<Extends> moved into <{kid.tag}>'
+        else:
+            r = handle[1]
+            inner = El('LexicalResource', list(r.attrs), list(r.children))
+            r.children = [inner]
+            b.what = 'the content wrapped in a second <LexicalResource>'
+    elif cls == 'attr-removed':
         el, a = handle
         gone = a if isinstance(a, tuple) else (a,)
         el.attrs = [(n, v) for n, v in el.attrs if n not in gone]
